@@ -470,8 +470,15 @@ func main() {
 			maxBody = 24
 			maxMsgs = 2
 		}
-		stream, msgs := httpgen.Stream(rng, httpgen.Opts{Response: kind == "response", MaxBody: maxBody, MaxMsgs: maxMsgs})
+		stream, msgs := httpgen.Stream(rng, httpgen.Opts{Response: kind == "response", MaxBody: maxBody, MaxMsgs: maxMsgs, Damage: true})
 		c := caseT{Kind: kind, Index: i}
+		for _, m := range msgs {
+			for _, f := range m.Feat {
+				if strings.HasPrefix(f, "damage:") {
+					c.Mutations = append(c.Mutations, f)
+				}
+			}
+		}
 		if rng.Intn(100) < 45 {
 			nm := 1 + rng.Intn(2)
 			for k := 0; k < nm; k++ {
